@@ -177,6 +177,24 @@ def check(run, driver):
             run.prop_fail("after the graph grew in place, the layout no longer places every node exactly once (stale state)", {"nodes": list(map(repr, G.nodes())), "order": list(map(repr, o1))}, {"clause": "layout_perm", "history": True})
         elif list(o1) != list(o2):
             run.corr_fail("history", {"nodes": list(map(repr, G.nodes()))}, list(map(repr, o2)), list(map(repr, o1)), "layout of a graph object seen before differs from the layout of a fresh equal graph")
+    # history: two graphs with the SAME edges but different isolated nodes, laid out and drawn one after the other with the same seed
+    for it in range(8 if thorough else 3):
+        base = rand_multigraph(rng, n=int(rng.integers(3, 7)))
+        seed = int(rng.integers(0, 30))
+        for tag in ("idle-A", "idle-B"):
+            Gt = nx.MultiDiGraph(); Gt.add_nodes_from(base.nodes()); Gt.add_edges_from((a, b, dict(dd)) for a, b, dd in base.edges(data=True)); Gt.add_node(tag)
+            run.case("history-idle", [it, tag, seed], True)
+            o = P.optimize_circular_order(Gt, max_iters=30, rng=seed)
+            if sorted(map(repr, o)) != sorted(map(repr, Gt.nodes())):
+                run.prop_fail("layout does not place every node of THIS graph exactly once after a graph with the same edges but another isolated node was laid out (stale state)",
+                              {"nodes": list(map(repr, Gt.nodes())), "order": list(map(repr, o))}, {"clause": "layout_perm", "history": True})
+            try:
+                with quiet():
+                    fig, ax = P.plot_causal_network(Gt, seed=seed, figsize=(3, 3), dpi=30, show_plot=False)
+                plt.close("all")
+            except Exception as e:  # noqa
+                plt.close("all")
+                run.prop_fail("drawing raises after a graph with the same edges but another isolated node was drawn", {"nodes": list(map(repr, Gt.nodes())), "seed": seed}, {"clause": "total", "history": True}, repr(e))
     # adversarial community outputs
     for it in range(40 if thorough else 12):
         G = rand_multigraph(rng)
